@@ -867,9 +867,129 @@ func checkObserverIndexGuard(c *Ctx, res *report.Result, rule string) {
 			}
 			r := flow.FindPath(flow.Point{Block: f.Blocks[0]}, func(x ssa.Instruction) bool { return x == ssa.Instruction(ia) }, isLenTest, nil)
 			res.Check(!r.Found, rule, "ReportStreamValue: streamActive[idx] is reached only through a test of idx against len(streamActive)", instrPos(c.Prog, ia), "every path passes `idx >= len(s.streamActive)`", "the counter slot is indexed without a preceding comparison of the index with the slice's length (path "+flow.BlockPath(r.Via)+"): an index between len and cap - any shard id above the last grown size - panics with index out of range and that shard's stream is refused")
+			// the edge that skips the growth must imply idx < len(streamActive): `idx > len` or `idx >= len+1` would
+			// let idx == len through (boundary value: the shard id that equals the table's current length)
+			isStoreSA := func(x ssa.Instruction) bool {
+				st, isSt := x.(*ssa.Store)
+				if !isSt {
+					return false
+				}
+				fa, isFA := st.Addr.(*ssa.FieldAddr)
+				return isFA && flow.FieldName(fa.X.Type(), fa.Field) == "streamActive"
+			}
+			for _, gb := range f.Blocks {
+				if len(gb.Instrs) == 0 || !isLenTest(gb.Instrs[len(gb.Instrs)-1]) {
+					continue
+				}
+				iff := gb.Instrs[len(gb.Instrs)-1].(*ssa.If)
+				for si, succ := range gb.Succs {
+					// the no-growth way: ia reachable from succ without a store to streamActive
+					rr := flow.FindPath(flow.Point{Block: succ}, func(x ssa.Instruction) bool { return x == ssa.Instruction(ia) }, isStoreSA, nil)
+					if !rr.Found {
+						continue
+					}
+					implied, form := impliesIndexBelowLen(iff.Cond.(*ssa.BinOp), si == 0, ia.Index)
+					construct := "ReportStreamValue: the way around the growth implies idx < len(streamActive)"
+					switch {
+					case form == "":
+						res.Undec(rule, construct, instrPos(c.Prog, iff), "the comparison of the index with the length is not of a form the rule knows (idx, len, each with an optional constant offset, compared by < <= > >=)")
+					case implied:
+						res.Hold(rule, construct, instrPos(c.Prog, iff), "on the edge that skips the growth: "+form)
+					default:
+						res.Viol(rule, construct, instrPos(c.Prog, iff), "on the edge that skips the growth only `"+form+"` is known, which does not exclude idx == len(streamActive): the stream whose shard id equals the current table length (1024 on a fresh proxy, then every grown size) panics with index out of range and is refused")
+					}
+				}
+			}
 		}
 	}
 	if n == 0 {
 		res.Undec(rule, "ReportStreamValue: counter access", fnPos(c.Prog, f), "no indexed access of streamActive found")
 	}
+}
+
+// impliesIndexBelowLen: cond is `A op B` where one side is idx(+k) and the other len(streamActive)(+k). Returns
+// whether the given side of the test implies idx < len, and a rendering of what the side implies ("" = unknown form).
+func impliesIndexBelowLen(bo *ssa.BinOp, side bool, idx ssa.Value) (bool, string) {
+	type term struct {
+		isLen bool
+		off   int64
+	}
+	var parse func(v ssa.Value, d int) (term, bool)
+	parse = func(v ssa.Value, d int) (term, bool) {
+		if d > 4 {
+			return term{}, false
+		}
+		switch x := v.(type) {
+		case *ssa.Convert:
+			return parse(x.X, d+1)
+		case *ssa.Call:
+			if bi, ok := x.Call.Value.(*ssa.Builtin); ok && bi.Name() == "len" {
+				if _, f2, ok2 := flow.FieldLoadOf(x.Call.Args[0]); ok2 && f2 == "streamActive" {
+					return term{true, 0}, true
+				}
+			}
+		case *ssa.BinOp:
+			if x.Op == token.ADD || x.Op == token.SUB {
+				if k, ok := flow.ConstInt(x.Y); ok {
+					t, ok2 := parse(x.X, d+1)
+					if !ok2 {
+						return term{}, false
+					}
+					if x.Op == token.SUB {
+						k = -k
+					}
+					t.off += k
+					return t, true
+				}
+			}
+		}
+		if flow.SameValue(flow.Strip(v), flow.Strip(idx)) {
+			return term{false, 0}, true
+		}
+		return term{}, false
+	}
+	a, okA := parse(bo.X, 0)
+	b, okB := parse(bo.Y, 0)
+	if !okA || !okB || a.isLen == b.isLen {
+		return false, ""
+	}
+	op := bo.Op
+	// orient as idx+a.off OP len+b.off
+	if a.isLen {
+		a, b = b, a
+		switch op {
+		case token.LSS:
+			op = token.GTR
+		case token.LEQ:
+			op = token.GEQ
+		case token.GTR:
+			op = token.LSS
+		case token.GEQ:
+			op = token.LEQ
+		}
+	}
+	if !side {
+		switch op {
+		case token.LSS:
+			op = token.GEQ
+		case token.LEQ:
+			op = token.GTR
+		case token.GTR:
+			op = token.LEQ
+		case token.GEQ:
+			op = token.LSS
+		default:
+			return false, ""
+		}
+	}
+	k := b.off - a.off // idx - len OP k
+	switch op {
+	case token.LSS: // idx - len < k  => idx - len <= k-1
+		return k-1 <= -1, fmt.Sprintf("idx - len(streamActive) <= %d", k-1)
+	case token.LEQ:
+		return k <= -1, fmt.Sprintf("idx - len(streamActive) <= %d", k)
+	case token.GTR, token.GEQ:
+		return false, "no upper bound on idx"
+	}
+	return false, ""
 }
